@@ -104,7 +104,7 @@ def run_universes(run, evaluator_path, plan, tier, seed, opts=None, chunk=200, m
                     st["fail_known"] += 1
                 else:
                     st["fail_new"] += 1
-                    unmatched.setdefault(sig, []).append((uname, rank))
+                    unmatched.setdefault(str(sig).split("#")[0], []).append((uname, rank))
         run.evaluations += st["evaluated"]
         run.nt_extra += st["nontrivial"]
         run.per_universe[uname] = st
@@ -117,7 +117,7 @@ def run_universes(run, evaluator_path, plan, tier, seed, opts=None, chunk=200, m
 
             def fails(d, _sig=sig):
                 s = ev(d, opts, None)
-                return s[0] == "fail" and s[1] == _sig
+                return s[0] == "fail" and str(s[1]).split("#")[0] == _sig
 
             try:
                 small = minimize_doc(src, fails, budget=200)
